@@ -17,6 +17,7 @@ def prebuild():
     apidrive.build()
 
 def run(tier):
+    os.environ.setdefault('VERIF_BUDGET_S', '300' if tier == 'quick' else '2400')  # a cap that is hit ends the run with exhaustive:false, exit 0
     apidrive.run_seq('C02', tier, ['TestVerifC02', 'TestVerifC02Cluster', 'TestVerifC02Macro'], ASSUME, RULE)
 
 def replay(path):
